@@ -52,6 +52,11 @@ T = {
          "Each output is re-read lexically by an independent tokenizer written from the standard and must yield exactly the tags, attribute (qualified name, value) sets, text, comments and doctype of the stream it came from; otherwise serializer.errors must be non-empty and strict mode must raise.",
          "ref/tokenizer.py is trusted; names are compared ASCII-case-insensitively as the tokenizer reads them; trees are built (and re-read) with scripting off; a UnicodeEncodeError from the serializer counts as a reported error (pinned by the suite); seven root causes are listed known findings",
          "6/C08"),
+ "C09": ("model_checking",
+         "explicit-state BFS over markup themes incl. an XSS-flavoured one (key = parser state + complete final tree), each distinct tree walked and pushed through the real sanitizer under 29 allow-list configurations; plus flat exhaustive enumeration of all URL values <=3 over 28 macro-letters on each of the 13 URI-valued attributes and all style values <=4 over 23 CSS macro-letters; invariant oracle on the output stream with an independent browser-style scheme extractor (ref/urlscheme.py) and CSS-escape decoder",
+         "The sanitizer is a per-token function, so hand-built one-element streams carrying every short attribute value cover its decision domain for URLs and CSS; parsed streams cover element/attribute filtering, comments and namespaced attributes. Each output is checked against the allow-lists actually configured (default, each protocol removed, data types emptied, restricted elements / attributes, empty).",
+         "ref/urlscheme.py models the WHATWG URL scheme extraction, it is not a browser; the ping attribute is treated as a single URL; values outside the macro alphabets are not covered",
+         "6/C09"),
  "C11": ("model_checking",
          "explicit-state BFS over markup-token words, key = (suspended parser state, digest of the complete final tree); every explored word is built with etree (full tree / root element / fragment) and dom (document / documentElement / fragment), namespacing on and off, and walked by the real walkers from each start node; oracle = lint filter + own well-formedness checker + tree rebuilt from the stream == direct traversal + etree stream == dom stream",
          "Walkers are pure traversals, so coverage is counted in distinct complete trees: all trees reachable by words of eight themed alphabets up to the stated depth (document mode and one fragment container per theme) are walked 12 ways each. The rebuilt-tree oracle is independent of html5lib (direct traversal of minidom / ElementTree objects).",
